@@ -1,13 +1,12 @@
 (* C20 — entry points evaluated by the harness-written case files, one per stream/component. *)
 From Coq Require Import NArith List Bool.
-From Verif Require Import Base.Word Base.Check Model.Keys Model.Indexes Model.KeysSpec.
+From Verif Require Import Base.Word Base.Check Model.Keys Model.Indexes Model.KeysMgr Model.KeysSpec.
 Import ListNotations.
 Local Open Scope N_scope.
 
 (* short constructors used by the driver-written case files (fewer tokens: Coq parses them faster) *)
 Definition Sn (f r : list (N * N)) (t : option N) : snap := {| sfwd := f; srev := r; stot := t |}.
-Definition Ob (r : ret) (l : list snap) : obs := {| o_ret := r; o_snaps := l; o_mid := [] |}.
-Definition Obm (r : ret) (m : list ret) (l : list snap) : obs := {| o_ret := r; o_snaps := l; o_mid := m |}.
+Definition Ob (r : ret) (l : list snap) : obs := {| o_ret := r; o_snaps := l |}.
 
 (* the acceptor with a per-case configuration C from which the abstract operation is derived *)
 Definition waccept {C O} (ab : C -> O -> aop) (ss : C * sstate) (o : O) (r : obs) : (C * sstate) + N :=
@@ -76,18 +75,28 @@ Definition i_absop (_ : unit) (o : iop) : aop :=
   | ICreate id _ => {| a_touch := [id]; a_atomic := true; a_kind := KOther |}
   | IUpdate id _ => {| a_touch := [id]; a_atomic := true; a_kind := KOther |}
   | IDelete id => {| a_touch := [id]; a_atomic := true; a_kind := KRelease id |}
-  | IDeleteMid id mid =>
-      {| a_touch := id :: flat_map (fun m => match m with
-                                            | MCreate i _ | MAssign i _ | MTerminate i => [i]
-                                            | MProbe _ _ => [] end) mid;
-         a_atomic := true; a_kind := KRelease id |}
   end.
 Definition mki (x : icase) :=
   let '(kind, ids, probe, tr) := x in
   (i_init kind ids probe,
    (tt, sinit (map (fun _ => {| im_shared := true; im_range := fun _ => true |}) probe)), tr).
 Definition run_idx (cs : list icase) : list (list N) :=
-  check_all i_stepm (waccept i_absop) obs_eqb 1 (map mki cs).
+  check_all i_step (waccept i_absop) obs_eqb 1 (map mki cs).
+
+(* ---- subscriber.Manager, one critical section per step ---- *)
+Definition gcase := (N * list N * list N * list (gop * obs))%type.     (* MaxSessions, probed MACs, probed IPs *)
+Definition g_absop (_ : unit) (o : gop) : aop :=
+  match o with
+  | GCreate id _ | GAssignBegin id | GAssignWrite id _ | GAssignEnd id | GActivate id | GTermBegin id =>
+      {| a_touch := [id]; a_atomic := true; a_kind := KOther |}
+  | GTermEnd id | GTerm id => {| a_touch := [id]; a_atomic := true; a_kind := KRelease id |}
+  end.
+Definition g_modes : list imode :=
+  [ {| im_shared := true; im_range := fun _ => true |}; {| im_shared := true; im_range := fun _ => true |} ].
+Definition mkg (x : gcase) :=
+  let '(cap, pmacs, pips, tr) := x in (g_init cap pmacs pips, (tt, sinit g_modes), tr).
+Definition run_mgr (cs : list gcase) : list (list N) :=
+  check_all g_step (waccept g_absop) obs_eqb 1 (map mkg cs).
 
 (* ---- circuit-id keys ---- *)
 (* byte strings are written by the driver as (B length words): big-endian 6-byte words, zero padded
@@ -99,15 +108,16 @@ Definition run_ckey (cs : list ccase) : list (list N) :=
 
 (* ---- one case type for all components, so that a stream (corpus, guarded, defect) can mix them ---- *)
 Inductive ucase :=
-| UV (c : vcase) | UQ (c : qcase) | US (c : scase) | UI (c : icase) | UC (c : ccase).
+| UV (c : vcase) | UQ (c : qcase) | US (c : scase) | UI (c : icase) | UC (c : ccase) | UG (c : gcase).
 
 Definition run1 (u : ucase) : list N :=
   match u with
   | UV c => let '(s0, ss0, tr) := mkv c in check_case v_step (waccept v_absop) obs_eqb s0 ss0 tr
   | UQ c => let '(s0, ss0, tr) := mkq c in check_case q_step (waccept q_absop) obs_eqb s0 ss0 tr
   | US c => let '(s0, ss0, tr) := mks c in check_case s_step (waccept s_absop) obs_eqb s0 ss0 tr
-  | UI c => let '(s0, ss0, tr) := mki c in check_case i_stepm (waccept i_absop) obs_eqb s0 ss0 tr
+  | UI c => let '(s0, ss0, tr) := mki c in check_case i_step (waccept i_absop) obs_eqb s0 ss0 tr
   | UC tr => check_case c_step c_accept cout_eqb tt cinit tr
+  | UG c => let '(s0, ss0, tr) := mkg c in check_case g_step (waccept g_absop) obs_eqb s0 ss0 tr
   end.
 
 Fixpoint run_from (i : N) (cs : list ucase) : list (list N) :=
